@@ -941,21 +941,18 @@ impl<'a, W: Write> YamlSerializer<'a, W> {
     /// Consumes any pending flow hint.
     #[inline]
     fn take_flow_for_seq(&mut self) -> bool {
-        if self.in_flow > 0 {
-            true
-        } else {
-            matches!(self.pending_flow.take(), Some(PendingFlow::AnySeq))
-        }
+        // The hint is consumed also when we are inside a flow collection already (a FlowSeq
+        // nested in a FlowSeq): left pending, it would turn the next block sequence after the
+        // flow collection into flow style.
+        let hinted = matches!(self.pending_flow.take(), Some(PendingFlow::AnySeq));
+        self.in_flow > 0 || hinted
     }
     /// Determine whether the next mapping should be emitted in flow style.
     /// Consumes any pending flow hint.
     #[inline]
     fn take_flow_for_map(&mut self) -> bool {
-        if self.in_flow > 0 {
-            true
-        } else {
-            matches!(self.pending_flow.take(), Some(PendingFlow::AnyMap))
-        }
+        let hinted = matches!(self.pending_flow.take(), Some(PendingFlow::AnyMap));
+        self.in_flow > 0 || hinted
     }
 
     /// Temporarily mark that we are inside a flow container while running `f`.
